@@ -109,13 +109,15 @@ var (
 		"Offset", "By", "JSON", "On", "Or", "Keep", "Unwrap", "Bool", "Without"} // keywords are case-sensitive: these are plain identifiers
 	c05FuncLabels = []string{"rate", "sum", "duration", "ip", "bytes", "count", "vector"} // function-named labels, used where the next token is an operator, "," or ")"
 	c05StrVals    = []string{"", "x", "hello world", "with \"quote\"", "back\\slash", "tab\there", "new\nline", "ünï", "{}()[]", "a|b", "#not comment", "`", "\x01", "%d", "'single'", "cr\rlf\r\nend", "\r"}
-	c05Regexes    = []string{"a.*", "(x|y)+", "[0-9]{3}", "^GET$", "\\d+\\.\\d+", "", ".*", "(?i)err", "a\\\\b", "\"q\"", "[[:alpha:]]+"}
+	c05Regexes    = []string{"^a|b$", "^GET|x$", `^ab\$`, "^(a|b)$", "a.*", "(x|y)+", "[0-9]{3}", "^GET$", "\\d+\\.\\d+", "", ".*", "(?i)err", "a\\\\b", "\"q\"", "[[:alpha:]]+"}
 	c05Durs       = map[string]time.Duration{"5s": 5 * time.Second, "1m": time.Minute, "2h": 2 * time.Hour, "100ms": 100 * time.Millisecond, "1d": 24 * time.Hour, "1w": 7 * 24 * time.Hour,
 		"1h30m": 90 * time.Minute, "10ns": 10, "5us": 5 * time.Microsecond, "7µs": 7 * time.Microsecond, "1m30s": 90 * time.Second, "1w2d": 9 * 24 * time.Hour, "90m": 90 * time.Minute, "0s": 0, "1h1m1s": time.Hour + time.Minute + time.Second, "250ms": 250 * time.Millisecond}
 	// (PB/EB/PiB/EiB and "0B" cannot be lexed at all: Go's text/scanner, which this lexer and Loki's share, reads 1P/1E as an exponent and 0B as a binary prefix; not generated)
 	c05Bytes = map[string]uint64{"10B": 10, "1KB": 1000, "1KiB": 1024, "5MB": 5000000, "5MiB": 5 << 20, "2GB": 2000000000, "2GiB": 2 << 30, "1TB": 1000000000000, "1TiB": 1 << 40,
 		"10kb": 10000, "10mb": 10000000, "1.5KB": 1500, "42b": 42, "7gb": 7000000000, "3tib": 3 << 40}
-	c05Nums    = map[string]float64{"0": 0, "1": 1, "42": 42, "400": 400, "1.5": 1.5, "0.001": 0.001, "1e3": 1000, "2.5e-3": 0.0025, "1E2": 100, "10.0": 10, "007": 7, "123456789": 123456789}
+	c05Nums    = map[string]float64{"0": 0, "1": 1, "42": 42, "400": 400, "1.5": 1.5, "0.001": 0.001, "1e3": 1000, "2.5e-3": 0.0025, "1E2": 100, "10.0": 10, "007": 7, "123456789": 123456789,
+		// numbers are decimal, however many zeros precede them
+		"010": 10, "0100": 100, "012": 12, "0644": 644, "00": 0, "0010.50": 10.5}
 	c05IPs     = []string{"10.0.0.1", "10.0.0.0/8", "10.0.0.1-10.0.0.9", "::1", "2001:db8::/32", "not validated here"}
 	c05Tmpls   = []string{"{{.a}}", "{{ .a | ToUpper }} x", "plain", "{{ __line__ }}", "{{ if eq .a \"b\" }}y{{ end }}", ""}
 	c05Pats    = []string{"<a> <b>", "<_> - <x>", "<ip> [<ts>] \"<m>\"", "no captures checked here"}
@@ -544,9 +546,9 @@ func genMetricTok(r *vk.RNG, depth int) gq {
 		param := "none"
 		var arg gq
 		if op == "topk" || op == "bottomk" {
-			k := vk.Pick(r, []string{"1", "3", "10"})
+			k := vk.Pick(r, []string{"1", "3", "10", "010", "012"})
 			arg.add(k, ",")
-			param = k
+			param = strings.TrimLeft(k, "0") // decimal, however many zeros precede it
 		}
 		arg.app(inner)
 		grp := "nogroup"
@@ -789,6 +791,13 @@ func runC05(r *vk.Run) {
 			"vector-string":             `vector("a")`,
 			"vector-empty":              "vector()",
 			"label-replace-few-args":    "label_replace(" + metric + `, "a", "b")`,
+			// the static rules hold at every depth, also below label_replace and inside operands
+			"lr-topk-without-param":     "label_replace(topk(" + metric + `), "a", "$1", "b", "(.*)")`,
+			"lr-quantile-without-param": "label_replace(quantile_over_time(" + sel + " | unwrap " + lbl + ` [1m]), "a", "$1", "b", "(.*)")`,
+			"lr-grouping-on-rate":       "label_replace(sum(rate(" + sel + `[1m]) by (a)), "a", "$1", "b", "(.*)")`,
+			"lr-unwrap-missing":         "label_replace(sum_over_time(" + sel + `[1m]), "a", "$1", "b", "(.*)") + ` + metric,
+			"lr-nested-sort-grouping":   "sum(label_replace(sort by (a) (" + metric + `), "a", "$1", "b", "(.*)"))`,
+			"operand-topk-zero":         metric + " / topk(0, " + metric + ")",
 			"distinct-without-labels":   selPipe + " | distinct",
 			"drop-without-labels":       selPipe + " | drop",
 			"keep-without-labels":       selPipe + " | keep",
@@ -818,6 +827,13 @@ func runC05(r *vk.Run) {
 			"invalid-regex-keep":        selPipe + ` | keep a!~"*"`,
 			"invalid-regex-unwrap":      "sum_over_time(" + sel + ` | unwrap a | b=~"(" [1m])`,
 			"invalid-regex-replace":     "label_replace(" + metric + `, "a", "b", "c", "(")`,
+			// label names with dots belong to the dotted dialect only (ParseOptions.AllowDots); the plugin
+			// parses in the strict one, whatever the same process parsed before in the other
+			"dotted-selector-label": `{service.name="api"}`,
+			"dotted-filter-label":   selPipe + ` | http.method="GET"`,
+			"dotted-grouping-label": "sum by (k8s.pod) (" + metric + ")",
+			"dotted-unwrap-label":   "sum_over_time(" + sel + " | unwrap http.size [5m])",
+			"dotted-drop-label":     selPipe + " | drop a.b",
 			"two-queries":               selPipe + " " + sel,
 			"metric-then-selector":      metric + " " + sel,
 			"trailing-paren":            metric + " )",
@@ -826,6 +842,15 @@ func runC05(r *vk.Run) {
 			"trailing-ident-metric":     metric + " foo",
 			"trailing-string":           metric + ` "x"`,
 			"trailing-comma":            metric + " ,",
+		}
+		if c.Idx%2 == 1 {
+			// the other dialect, in the same process, right before the strict parses
+			dotted := `sum by (k8s.pod) (count_over_time({service.name="api"} | json | http.method="GET" [1m]))`
+			if _, err := logql.Parse(dotted, logql.ParseOptions{AllowDots: true}); err != nil {
+				c.Fail("", "dotted dialect rejects "+dotted+": "+err.Error(), map[string]any{"query": dotted})
+			}
+			c.Eval(1)
+			c.Count("dotted_dialect_parses", 1)
 		}
 		names := make([]string, 0, len(bad))
 		for k := range bad {
